@@ -300,7 +300,7 @@ func Mutate(t *rapid.T, b []byte) []byte {
 		}
 		return HostileBytes[intn(t, len(HostileBytes), "hb")]
 	}
-	switch intn(t, 10, "mutkind") {
+	switch intn(t, 11, "mutkind") {
 	case 0:
 		return b[:i]
 	case 1:
@@ -342,6 +342,10 @@ func Mutate(t *rapid.T, b []byte) []byte {
 		return append(b, pick())
 	case 8: // structural: duplicate, drop or follow a bracket / comma / colon with another one
 		return MutateStructure(t, b)
+	case 9: // a complete multi-byte UTF-8 sequence that a rune-based classifier could take for a
+		// space, a digit, a quote or a control character
+		seq := []string{"\u0120", "\u010a", "\u2009", "\u00a0", "\u0085", "\ufeff", "\u0663", "\uff11", "\u201c", "\u2028", "\u3000", "\u0941", "\U0001f60d", "\u007f", "\u0222"}[intn(t, 15, "mbseq")]
+		return append(b[:i:i], append([]byte(seq), b[i:]...)...)
 	default: // an extra fraction / exponent tail after some number
 		return MutateNumberTail(t, b)
 	}
@@ -492,6 +496,10 @@ type NestSpec struct {
 	IndentStep int
 	IndentCap  int
 	IndentByte byte
+	// After is a member that FOLLOWS the deep member in the outermost AfterLevels containers
+	// ("" = none): what comes after an over-deep part has been left behind
+	After       string
+	AfterLevels int
 }
 
 func (n NestSpec) indent(sb *strings.Builder, level int) {
@@ -563,6 +571,15 @@ func (n NestSpec) Build() []byte {
 		sb.WriteString(s)
 	}
 	for i := n.Depth - 1; i >= 0 && n.Depth-1-i < n.Close; i-- {
+		if n.After != "" && i < n.AfterLevels && i+1 < n.Depth {
+			// the member at level i+1 has just been closed: add a sibling behind it
+			if kinds[i] == 'o' {
+				sb.WriteString(`,"t":`)
+			} else {
+				sb.WriteByte(',')
+			}
+			sb.WriteString(n.After)
+		}
 		n.indent(&sb, i)
 		if kinds[i] == 'o' {
 			sb.WriteByte('}')
@@ -621,5 +638,9 @@ func DrawNest(t *rapid.T, depths []int) NestSpec {
 	n.Lead = []string{"", " ", "\n\t"}[intn(t, 3, "lead")]
 	n.Trail = []string{"", " ", "x", "]"}[intn(t, 4, "trail")]
 	n.Sibling = intn(t, 4, "sibling") == 0
+	if intn(t, 3, "after?") == 0 {
+		n.After = []string{"1.5", "1e5", "-0.25E-3", `"s"`, "true", "[]", "0", `{"a":2.5}`}[intn(t, 8, "after")]
+		n.AfterLevels = []int{1, 2, 3, d}[intn(t, 4, "afterlevels")]
+	}
 	return n
 }
